@@ -43,7 +43,7 @@ def roach_stage(ctx, q):
     r = vlib.run_tlc(ctx, "RoachIngest", "RoachAsCodeLoss.cfg", workers=4, timeout=600)
     ctx.notes["roach_model_as_code_with_loss"] = {"violated": r.violated, "meaning": "named deviation FirstPacketOnly: a loss inside a bundle is neither reported nor reflected in frame numbers (design observation outside the listed properties)"}
     tp = ctx.path("roach.ndjson")
-    rc, out = vlib.go_test(ctx, "", ROACH, "TestVerifRoach$", env={"VERIF_OUT": tp, "VERIF_NRANDOM": 12 if q else 60}, timeout=1500)
+    rc, out = vlib.go_test(ctx, "", ROACH, "TestVerifRoach$|TestVerifAbacoGroupUnwrap$", env={"VERIF_OUT": tp, "VERIF_NRANDOM": 12 if q else 60}, timeout=1500)
     if rc != 0:
         raise vlib.MachineryError("roach driver failed:\n" + out[-3000:])
     ev = vlib.read_ndjson(tp)
@@ -112,8 +112,8 @@ def run(ctx):
         s = [x for x in scs if x["first"] <= v["line"]][-1]
         e = s["events"][v["line"] - s["first"]]
         sig = {"predicate": v["predicate"], "enable": s["cfg"]["enable"], "invert": s["cfg"]["invert"]}
-        if s["cfg"].get("origin") == "roach":
-            sig["via"] = "roach"
+        if s["cfg"].get("origin") in ("roach", "abaco-group"):
+            sig["via"] = s["cfg"]["origin"]
         vlib.report_violation(ctx, sig, {"config": s["cfg"], "run": {k: (e[k] if k == "split" else e[k][:300]) for k in ("split", "inp", "out") if k in e}})
     return vlib.finish(ctx, LEVEL,
                        "case = (option set, 16-bit input sequence, splits into calls); distinct by hash; non-trivial = the output used at least two different offsets (a wrap was removed or a reset happened)",
